@@ -629,6 +629,113 @@ def check(run, prog, tier):
                "%s gives a meaning to %s inside a string (line %s) but save_svalue writes it unescaped: a string containing it does not come back equal" % (g.name, pr(missing), special[missing[0]]), g.file, special[missing[0]] if missing else g.line, g.name,
                what="%s interprets %s, which save_svalue does not escape" % (g.name, pr(missing)))
 
+    # ---- C16-l the byte behind a backslash is taken literally
+    run.rule("C16-l", "string readers: the character fetched from behind a backslash is stored as it is - between that fetch and the next assignment to the character variable no test compares it with a special character (delimiter, backslash, the CR that stands for LF); otherwise an escaped byte is translated or ends the string and the value does not come back equal", 3)
+    nl = 0
+    for g in sorted(readers, key=lambda x: (x.file, x.line)):
+        fetches = []
+        literal = 0
+        # edges on which the current character is known to be the backslash
+        starts = []
+        for bid in sorted(g.reachable()):
+            blk = g.blocks[bid]
+            c = g.branch_cond(bid)
+            if c is not None:
+                op, l, r = atom_of(c, True)
+                if op in ("==", "!=") and r is not None and const_val(r) == ord("\\") and strip(l).get("k") == "Ref" and (strip(l).get("t") or "") == "char":
+                    starts.append((blk.succ[0] if op == "==" else blk.succ[1], strip(l)))
+            t3 = blk.term or {}
+            if t3.get("k") == "SwitchStmt":
+                cond3 = t3.get("cond") or (blk.el[-1] if blk.el else None)
+                if cond3 is not None and strip(cond3).get("k") == "Ref" and (strip(cond3).get("t") or "") == "char":
+                    for sx in blk.succ:
+                        lab = g.blocks[sx].label if sx is not None else None
+                        if lab and lab.get("k") == "case" and lab.get("lo") == ord("\\"):
+                            starts.append((sx, strip(cond3)))
+
+        def is_fetch(x):
+            return x.get("k") == "Un" and x.get("op") == "*" and strip(x["e"]).get("k") == "Un" and strip(x["e"]).get("op") == "++" and strip(x["e"]).get("post")
+
+        for s0, cvar in starts:
+            if s0 is None:
+                continue
+            cur, hops, found = s0, 0, None
+            while cur is not None and hops < 4 and found is None:
+                blk = g.blocks[cur]
+                for ei, e in enumerate(blk.el):
+                    for x in walk(e):
+                        if is_fetch(x):
+                            found = (blk, ei, e, x)
+                            break
+                    if found:
+                        break
+                if found:
+                    break
+                ls = blk.live_succ()
+                cur = ls[0] if len(ls) == 1 else None
+                hops += 1
+            if found is None:
+                continue
+            blk, ei, e, fx = found
+            asg = None
+            for x in walk(e):
+                if x.get("k") == "Asg" and x.get("op") == "=" and strip(x["L"]).get("k") == "Ref" and strip(x["L"]).get("id") == cvar.get("id") and any(y is fx for y in walk(x["R"])):
+                    asg = x
+            if asg is None:
+                literal += 1
+                nl += 1
+                run.ob("C16-l", "escaped-literal:%s:direct:%d" % (g.name, literal - 1), True, "the byte behind the backslash (line %s) goes to the output without passing through `%s`" % (fx.get("l"), cvar.get("n")), g.file, fx.get("l"), g.name)
+            else:
+                fetches.append((blk, ei, asg, cvar))
+        for j, (b, i, n, cv) in enumerate(fetches):
+            nl += 1
+            bad = None
+            seen = set()
+            work = [(b.id, i, n)]
+            while work and bad is None:
+                bid, start, after = work.pop()
+                blk = g.blocks[bid]
+                killed = False
+                passed = after is None
+                for ei in range(start, len(blk.el)):
+                    for x in walk(blk.el[ei]):
+                        if not passed:
+                            if x is after:
+                                passed = True
+                            continue
+                        if x.get("k") == "Bin" and x.get("op") in ("==", "!="):
+                            for vx, kx in ((x["L"], x["R"]), (x["R"], x["L"])):
+                                k = const_val(kx)
+                                v0 = strip(vx)
+                                if k is None:
+                                    continue
+                                if v0.get("k") == "Asg" and strip(v0["L"]).get("id") == cv.get("id"):
+                                    killed = True
+                                elif v0.get("k") == "Ref" and v0.get("id") == cv.get("id") and k > 0:
+                                    bad = (x.get("l"), show(x))
+                        elif x.get("k") == "Asg" and strip(x["L"]).get("k") == "Ref" and strip(x["L"]).get("id") == cv.get("id") and x is not after:
+                            killed = True
+                        if killed or bad:
+                            break
+                    if killed or bad:
+                        break
+                if killed or bad:
+                    continue
+                t2 = blk.term or {}
+                if t2.get("k") == "SwitchStmt":
+                    cond2 = t2.get("cond") or (blk.el[-1] if blk.el else None)
+                    if cond2 is not None and strip(cond2).get("id") == cv.get("id"):
+                        bad = (t2.get("l"), "switch (%s)" % cv.get("n"))
+                        continue
+                for sx in blk.live_succ():
+                    if sx not in seen:
+                        seen.add(sx)
+                        work.append((sx, 0, None))
+            run.ob("C16-l", "escaped-literal:%s:%d" % (g.name, j), bad is None, "the byte fetched behind the backslash at line %s is not compared with a special character before `%s` is assigned again" % (n.get("l"), cv.get("n")) if bad is None else
+                   "the byte fetched behind the backslash at line %s reaches the test `%s` (line %s): an escaped occurrence of that character is treated like a bare one" % (n.get("l"), bad[1], bad[0]), g.file, bad[0] if bad else n.get("l"), g.name,
+                   what="%s interprets a character that was written behind a backslash (%s)" % (g.name, bad[1] if bad else ""))
+    run.need(nl >= 3, "fetches behind a backslash in the string readers (found %d)" % nl)
+
     # ---- C16-k a float is printed so that it reads back as a float, identically in both passes
     run.rule("C16-k", "floats: every printf-family conversion of a double in the save path keeps a float marker in the text (%g only with the '#' flag, %f/%e not with precision 0) so parse_numeric reads it back as a float, and the size pass and the write pass format reals through the same call", 2)
     import re as _re
